@@ -249,10 +249,13 @@ def _children_call(t: Term, self_t: Term) -> bool:
     return isinstance(t, Call) and call_name(t) == 'children' and call_recv(t) == self_t
 
 
-def _iter_slots(it: Term, self_t: Term) -> Set[str]:
+def _iter_slots(it: Term, self_t: Term, slots: Optional[List] = None) -> Set[str]:
     """slots whose value(s) an iterable term enumerates: self.slot, (self.a, self.b), reversed(...), tuple(...)"""
     if isinstance(it, Attr) and it.base == self_t:
         return {it.name}
+    if slots is not None and isinstance(it, Call) and call_name(it) == 'simple_events' and call_recv(it) == self_t and not it.args:
+        # the leaves of an event disjunction: every alternative of both operands (S8 checks that enumeration)
+        return {s_.name for s_ in slots}
     if isinstance(it, TupleT):
         out: Set[str] = set()
         for x in it.items:
@@ -285,7 +288,7 @@ def _consulted_slots(terms: List[Term], q: str, self_t: Term, slots: List[Slot])
                     for _, it, _ in x.gens:
                         if _children_call(it, self_t):
                             via_children = True
-                        got.update(_iter_slots(it, self_t))
+                        got.update(_iter_slots(it, self_t, slots))
             if isinstance(x, Loop):
                 calls_q = any(isinstance(y, Call) and call_name(y) == q and isinstance(call_recv(y), Sym) and call_recv(y).name.startswith('each:') for e in x.effects for y in walk(e)) or \
                     any(isinstance(y, Call) and call_name(y) == q and isinstance(call_recv(y), Sym) and call_recv(y).name.startswith('each:') for p in x.paths for _, v in p[2] for y in walk(v)) or \
@@ -294,7 +297,7 @@ def _consulted_slots(terms: List[Term], q: str, self_t: Term, slots: List[Slot])
                 if calls_q:
                     if _children_call(x.iter, self_t):
                         via_children = True
-                    got.update(_iter_slots(x.iter, self_t))
+                    got.update(_iter_slots(x.iter, self_t, slots))
     return got, via_children
 
 
@@ -1235,12 +1238,13 @@ def S8(ctx: Ctx) -> RuleResult:
     # simple_events
     fi = ed.resolve('simple_events')
     outs = ctx.ev.run(fi, {'self': self_t}, self_cls=ed)
+    outs = _follow_generator(ctx, outs, self_t, ed)
     why = _simple_events_ok(outs, self_t)
     (r.ok('simple_events(): event1 alternatives then event2 alternatives') if why is None else r.fail('HplEventDisjunction.simple_events', why, fi.where))
     se = m.cls('HplSimpleEvent', 'S8')
     fi = se.resolve('simple_events')
     self_s = Sym('self', 'HplSimpleEvent')
-    outs = ctx.ev.run(fi, {'self': self_s}, self_cls=se)
+    outs = [o for o in _follow_generator(ctx, ctx.ev.run(fi, {'self': self_s}, self_cls=se), self_s, se) if o.kind != 'raise' or len(o.guards) == 0]
     ys = [e for o in outs for e in o.effects if isinstance(e, Op) and e.op == 'yield']
     ok = len(outs) == 1 and len(ys) == 1 and ys[0].args[0] == self_s
     if not ok and len(outs) == 1 and outs[0].kind == 'return':
@@ -1290,6 +1294,18 @@ def S8(ctx: Ctx) -> RuleResult:
             elif is_none is None and pos not in got:
                 r.fail(f'HplProperty.events:{pos[1]}', f'event position {pos[0]}.{pos[1]} is never tested/yielded on path [{guards_repr(o.guards)}]', fi.where)
     return r
+
+
+def _follow_generator(ctx: Ctx, outs: List[Outcome], self_t: Term, cls: ClassInfo) -> List[Outcome]:
+    """a method that (after an eager check) returns the generator made by another method of the same object: that
+    method's paths, under the conditions established before the hand-over"""
+    rets = [o for o in outs if o.kind == 'return']
+    if len(rets) == 1 and isinstance(rets[0].value, Call) and isinstance(rets[0].value.func, BoundMethod) and rets[0].value.func.recv == self_t \
+            and not rets[0].value.args and not rets[0].value.kwargs and all(o.kind == 'raise' for o in outs if o is not rets[0]):
+        g = ctx.ev.callee(rets[0].value.func)
+        if g is not None and any(isinstance(n, (ast.Yield, ast.YieldFrom)) for n in ast.walk(g.node)):
+            return ctx.ev.run(g, {'self': self_t}, self_cls=cls)
+    return outs
 
 
 def _simple_events_ok(outs: List[Outcome], self_t: Term) -> Optional[str]:
